@@ -36,7 +36,10 @@ Skeletons == SubSeq(LongSkeletons, 1, LongN) \o
      <<"Integer", <<TX("substring(s, "), HA, TX(") eq 'k'")>>>>, <<"Integer", <<TX("length(s) eq "), HA, TX(" sub "), HB>>>>,
      <<"Float", <<TX("f lt "), HA>>>>, <<"Float", <<TX("ceiling(f mul "), HA, TX(") eq 3")>>>>, <<"Float", <<TX("floor(f add "), HA, TX(") gt "), HB>>>>,
      <<"Integer", <<TX("round(f div "), HA, TX(") eq "), HB>>>>, <<"Float", <<TX("f mul "), HA, TX(" gt "), HB>>>>, <<"Float", <<TX("round(f) eq "), HA>>>>,
-     <<"String", <<TX("s eq "), HA>>>>, <<"String", <<HA, TX(" eq concat(s, "), HB, TX(")")>>>>, <<"String", <<HA, TX(" eq substring(s, 2)")>>>>,
+     <<"String", <<TX("s eq "), HA>>>>, <<"String", <<HA, TX(" eq concat(s, "), HB, TX(")")>>>>,
+     \* literals in both argument positions, and a regular expression with an inline flag
+     <<"String", <<TX("contains('hello world', "), HA, TX(")")>>>>, <<"String", <<TX("startswith("), HA, TX(", "), HB, TX(") or s eq 'k'")>>>>,
+     <<"Pattern", <<TX("matchesPattern(s, "), HA, TX(")")>>>>, <<"String", <<HA, TX(" eq substring(s, 2)")>>>>,
      <<"String", <<TX("not ("), HA, TX(" ne tolower(concat("), HB, TX(", s)))")>>>>, <<"Integer", <<HA, TX(" eq indexof(s, 'wi')")>>>>,
      <<"String", <<TX("2 eq indexof(s, "), HA, TX(")")>>>>, <<"String", <<TX("contains(s, "), HA, TX(")")>>>>, <<"String", <<TX("startswith(s, "), HA, TX(")")>>>>,
      <<"String", <<TX("endswith(s, "), HA, TX(") eq true")>>>>, <<"String", <<TX("concat(s, "), HA, TX(") eq "), HB>>>>,
@@ -60,6 +63,7 @@ Values ==
                   <<StrSp(<<>>), StrSp(S("x"))>>, <<StrSp(S("' OR '1'='1")), StrSp(<<92, 34>>)>>, <<StrSp(S("plain")), StrSp(S("with%wild"))>>,
                   \* both need LIKE escaping, and they contain the usual escape characters themselves
                   <<StrSp(S("a/b%")), StrSp(S("50%"))>>, <<StrSp(<<47, 95>>), StrSp(<<92, 37, 126>>)>> >>,
+    Pattern |-> << <<StrSp(S("(?i)abc")), StrSp(S("abc"))>>, <<StrSp(S("^a.*z$")), StrSp(S("(?s)q7x"))>> >>,
     Date |-> << <<S("2031-07-03"), S("1999-12-31")>> >>,
     DateTime |-> << <<S("2031-07-03T07:31:03Z"), S("1999-12-31T23:59:59Z")>>, <<S("2031-07-03T07:31"), S("2000-01-01T00:00:00+01:00")>> >>,
     Time |-> << <<S("07:31:03"), S("23:59:59.5")>> >>,
